@@ -9,7 +9,18 @@ SPEC = {
     ],
     "engines": [
         {"name": "gossip", "pkg": "./gossip", "search_cases": 15000},
+        {"name": "mesh", "pkg": "./mesh", "search_cases": 6, "timeout_quick": 300, "timeout_thorough": 900},
     ],
-    "rule": "",
-    "assumptions": [],
+    "rule": "gossip: two real cluster delegates (tagged export) over last-writer-wins test states with registries drawn from {sil,nfl},{sil},{nfl},{nfl,sil,xtra}; "
+            "NotifyMsg with well-formed parts (known / unknown key, good / rejected payload) and arbitrary bytes; MergeRemoteState with 1-3 parts incl. rejected "
+            "payloads before good ones, and arbitrary bytes; LocalState→MergeRemoteState exchanges; the real cluster.Channel with wrapped sizes 670-701 bytes "
+            "around the 700 byte threshold, 0-2 peers, reliable sends held/released, a 204-message flood of the 200-slot oversize queue in 4% of the cases; "
+            "mesh: 2-3 real cluster.Peer on 127.0.0.1 with real silence.Silences and nflog.Log, small and oversized updates from every node, a late joiner. "
+            "non-trivial = hits a tagged branch",
+    "assumptions": [
+        "the delegate is driven through fixes/hook-cluster-export.diff (cluster/export_verif.go, build tag verif, add-only): it builds the unexported delegate over a given registry without a memberlist",
+        "a registered state is abstracted to a last-writer-wins map id->version whose Merge rejects undecodable payloads (what C09/C10 prove of silences and the notification log); the engine uses such test states, the mesh engine the real ones",
+        "protobuf field codec: Part/FullState round-trip; 'malformed' = proto.Unmarshal fails (arbitrary bytes that happen to decode carry an unknown key and are inert for that reason)",
+        "memberlist's dissemination (gossip fan-out, SendReliable, push/pull) is observed on loopback, not proved; an oversized update is sent once, to the members the sender knows at that moment",
+    ],
 }
